@@ -329,7 +329,7 @@ func (p *MetadataPersister) GetHeaderDirectChildren(ctx context.Context, name st
 
 		query := fmt.Sprintf(
 			`select %v, %v, %v, %v, %v, %v, %v, %v, %v, %v, %v, %v, %v, %v, %v, %v, %v, %v, %v, %v, %v,
-    length(replace(%v, ?, '')) - length(replace(replace(%v, ?, ''), '/', '')) as depth
+    length(substr(%v, length(?) + 1)) - length(replace(substr(%v, length(?) + 1), '/', '')) as depth
 from %v
 where %v like ?
     and (
